@@ -613,6 +613,12 @@ class Walk:
         if not mb.is_finite() or mb <= 0:
             mon.cls(f"max-borrow/non-positive/{state}")
             return
+        # an account sitting on its limit: the helper's answer is what 35-digit arithmetic leaves of zero (1e-30 of a token
+        # against a collateral of 1e4); whether such dust can be borrowed says nothing about the helper
+        coll_value = pf.total_collateral()
+        if coll_value > 0 and F(mb) * F(self.prices[name]) < coll_value * Fraction(1, 10**24):
+            mon.cls(f"max-borrow/arithmetic-dust/{state}")
+            return
         use_none = rng.random() < 0.4
         hf_before = pf.healthy() if pf.debts else None
         verdict, reason = pf.decide_borrow(name, mb)
